@@ -89,7 +89,16 @@ def record(optic, info, small_aperture=True):
         except Exception as ex:          # afocal lens, ray failure: no small-aperture claim
             raw["sa_error"] = "%s: %s" % (type(ex).__name__, ex)
     D = lambda seq: [dy(v) for v in seq]
-    E = {"ma": _ray(ym, um), "ch": _ray(yc, uc), "dn": D(dn), "T": {f: D(T[f]) for f in FAM}, "S": D(S),
+    # what the field specification says the chief ray carries (see clause chief_carries_field)
+    finite = not optic.object_surface.is_infinite
+    mf = float(optic.fields.max_field)
+    if finite and optic.field_type == "object_height":
+        fs = {"kind": "height", "v": dy(mf)}
+    elif not finite and optic.field_type == "angle":
+        fs = {"kind": "angle", "v": dy(math.tan(math.radians(mf)))}
+    else:
+        fs = {"kind": "none", "v": dy(0.0)}
+    E = {"fs": fs, "ma": _ray(ym, um), "ch": _ray(yc, uc), "dn": D(dn), "T": {f: D(T[f]) for f in FAM}, "S": D(S),
          "acc": {f: D(acc[f]) for f in FAM}, "accS": D(accS), "op": {f: D(op[f]) for f in FAM},
          "opsum": D(opsum), "opS": D(opS), "sa": sa}
     return E, raw
